@@ -1,4 +1,5 @@
 import RjModel.Model.Regex
+import RjModel.Lemmas.BossTraces
 import RjModel.Generated.Constants
 /-! # C06 — filters select by whole-path match, last match wins, same on both sides -/
 namespace Rj.C06
@@ -140,5 +141,57 @@ example : foldFilters [true, false, true] [true, true, true] = true ∧
           foldFilters [true, false, true] [true, true, false] = false ∧
           foldFilters [true, false, true] [false, false, false] = false ∧
           foldFilters [false] [false] = true := by decide
+
+/-- **Same on both sides**: whatever the scenario (roots of any kind, any replies, behaviours, answers,
+dry run or not), every `GetEntries` the boss sends — to the source doer or to the destination doer —
+carries the user's complete filter list, each pattern wrapped by the anchoring that `compile_filters`
+applies; so both doers evaluate the same list, and `apply_filters` is a function of (path, list) only. -/
+theorem C06_same_filters (w : Wrap) (sc : Scenario) (c : Cmd) (f : List FilterSpec)
+    (hc : c ∈ (run w sc).srcTrace ∨ c ∈ (run w sc).destTrace) (hf : c = .getEntries f) :
+    compileFilters w.pre w.post sc.filters = some f := by
+  have A : Allowed sc.dryRun
+      (fun c => ∀ f, c = .getEntries f → compileFilters w.pre w.post sc.filters = some f)
+      (fun c => ∀ f, c = .getEntries f → compileFilters w.pre w.post sc.filters = some f)
+      (fun f => compileFilters w.pre w.post sc.filters = some f) :=
+    { sSetRoot := fun _ _ h => by cases h
+      sGetEntries := fun _ hF _ h => by cases h; exact hF
+      sGetFile := fun _ _ _ h => by cases h
+      dSetRoot := fun _ _ h => by cases h
+      dGetEntries := fun _ hF _ h => by cases h; exact hF
+      dMarker := fun _ _ h => by cases h
+      dMutating := fun _ c hm _ h => by subst h; simp [Cmd.mutating] at hm }
+  rcases hc with hc | hc
+  · exact (run_ok w sc A).1 c hc f hf
+  · exact (run_ok w sc A).2 c hc f hf
+
+/-- the compiled list keeps number, order and signs of the user's filters -/
+theorem C06_compile_signs (pre post : String) (fs : List String) (out : List FilterSpec)
+    (h : compileFilters pre post fs = some out) :
+    out.length = fs.length ∧ ∀ i (hi : i < out.length) (hj : i < fs.length),
+      (out[i]).incl = ((fs[i]).toList.head? = some '+') := by
+  induction fs generalizing out with
+  | nil => simp only [compileFilters, Option.some.injEq] at h; subst h; simp
+  | cons x xs ih =>
+    simp only [compileFilters] at h
+    cases hx : compileFilter pre post x with
+    | none => simp [hx] at h
+    | some y =>
+      cases hxs : compileFilters pre post xs with
+      | none => simp [hx, hxs] at h
+      | some ys =>
+        simp only [hx, hxs, Option.bind_eq_bind, Option.bind_some, Option.pure_def, Option.some.injEq] at h
+        subst h
+        obtain ⟨h1, h2⟩ := ih ys hxs
+        refine ⟨by simp [h1], ?_⟩
+        intro i hi hj
+        cases i with
+        | zero =>
+          simp only [List.getElem_cons_zero]
+          unfold compileFilter at hx
+          split at hx
+          · simp only [Option.some.injEq] at hx; subst hx; simp_all
+          · simp only [Option.some.injEq] at hx; subst hx; simp_all
+          · simp at hx
+        | succ j => simpa using h2 j (by simpa using hi) (by simpa using hj)
 
 end Rj.C06
